@@ -29,11 +29,12 @@ REGISTRY = dict(
           "3 Delta), so the interpolant is monotone on every interval, constant on flat ones and never leaves "
           "[min y, max y] inside the knot range. Full for the ordered-field reading; the analytic ContDiff statement "
           "and binary64 rounding are not theorems. Model tied to the code by bit-exact binary64 correspondence. "
-          "Known binary64 gap (finding PCHIP-U1, replayed every run): the mask delta_l*delta_r > 0 underflows for "
-          "secants below ~1e-162 and the slope becomes 0 where standard PCHIP takes the harmonic mean."),
+          "Finding PCHIP-U1 (the former mask delta_l*delta_r > 0 underflowed for secants below ~1e-162) is fixed: the "
+          "mask compares signs (bridging lemma sameSign_iff); its witness and 2^k-scaled data down to 2^-940 (float64) "
+          "/ 2^-80 (float32) are replayed every run."),
     note=("Trusted: Lean kernel + propext/Classical.choice/Quot.sound; Mathlib; hand-written Model.Pchip tied by "
           "correspondence only; IEEE rounding outside the theorems (SciPy oracle rel 1e-9 of the value + slope-term scale); "
-          "values with |secant products| below 1e-300 (underflow of delta_l*delta_r) are outside the generators."),
+          "data scaled beyond 2^-940..2^960 (float64) / 2^-80..2^100 (float32) are outside the generators."),
     technique="Lean 4 proof (list induction, sum-of-squares certificate) + bit-exact model/implementation correspondence",
     design_ref="DESIGN.md §5 C20",
 )
@@ -444,9 +445,10 @@ UNDERFLOW_WITNESS = dict(x=[0.0, 1.0, 2.0, 3.0], y=[0.0, 1e-170, 3e-170, 7e-170]
 
 
 def underflow_witness():
-    """Replay of the Lean witness `float_mask_underflow_counterexample` on the real code: secants of magnitude
-    1e-170 make `delta_l * delta_r` underflow, the interior slopes become 0 and the values differ from standard
-    PCHIP (SciPy compares signs). Returns a failure string or None (None = the code no longer has the gap)."""
+    """Regression replay of the witness of the fixed finding PCHIP-U1 (Lean: `float_mask_underflow_counterexample`)
+    on the real code: with the former mask `delta_l * delta_r > 0` secants of magnitude 1e-170 made the product
+    underflow, the interior slopes became 0 and the values differed from standard PCHIP (SciPy compares signs).
+    Returns a failure string or None (None = the gap is closed, as it is since the fix)."""
     import numpy as np
     from scipy.interpolate import PchipInterpolator
     from emu_base.math.pchip_torch import PCHIP1D
@@ -475,10 +477,13 @@ def underflow_witness():
 # (power-of-two scaling commutes with IEEE rounding while nothing overflows, underflows or goes subnormal; all
 # comparisons are sign / ratio tests), so p(c*y) == c*p(y) bit for bit. Base data live on a dyadic lattice
 # (|secant| in [2^-7, 2^7] or 0, widths in [1/4, 4]); the exponent ranges keep every intermediate of the *clean*
-# algorithm (12*secant/h^2 at the top, secant products at the bottom) inside the normal range of the dtype:
-SCALE_RANGE = {"float64": (-480, 960), "float32": (-50, 100)}
-# (secants beyond sqrt(max float): 2^512 / 2^64 are reached from k ~ 520 / 72 upwards; below the lower ends the
-# same-sign mask delta_l*delta_r underflows — that is finding PCHIP-U1, replayed separately.)
+# algorithm (12*secant/h^2 at the top, t*p3 at the bottom) inside the normal range of the dtype:
+SCALE_RANGE = {"float64": (-940, 960), "float32": (-80, 100)}
+# (secants beyond sqrt(max float): 2^512 / 2^64 are reached from k ~ 520 / 72 upwards. Lower ends: since the fix of
+# PCHIP-U1 the same-sign mask compares signs, so nothing of size secant^2 is formed any more; what remains is that
+# rounding-noise-sized intermediates (t * p3 with p3 ~ eps * secant / h^2, i.e. 2^-69 / 2^-40 times the scale) must
+# stay normal for the scaling to commute with rounding: k >= -953 / -86. Measured: still bit-exact at 2^-1000 /
+# 2^-110 on 1500 data sets each; from 2^-1010 / 2^-115 on, w / secant overflows — the edge of the dtype.)
 
 
 def gen_scale_case(rng, i):
@@ -595,17 +600,16 @@ def check(rep: Report, tier: str, seed: int) -> None:
                 "1e-30..1e-20 / constant / flat end intervals / steps / half-integer lattice; queries inside, outside "
                 "both ends, at knots and one ulp beside them; plus malformed inputs, lattice calls of _limit_endpoint "
                 "and _pchip_derivatives, small rational datasets at Q, and dyadic-lattice datasets scaled by 2^k up to 2^960 "
-                "(float64) / 2^100 (float32) and down to 2^-480 / 2^-50. non-trivial = at least 3 knots and not "
+                "(float64) / 2^100 (float32) and down to 2^-940 / 2^-80. non-trivial = at least 3 knots and not "
                 "constant; distinct = distinct (x, y) bit patterns")
     rep.assumptions = [
         "binary64 rounding is outside the theorems (same definitions over an ordered field); probed by the SciPy "
         "oracle (rel 1e-9 of |y_i| + S(|t| + t^2/h + |t|^3/h^2), S = slope scale of the interval) and by the bit-exact correspondence",
-        "extreme magnitudes: data scaled by 2^k, k in [-480, 960] (float64) / [-50, 100] (float32), must be reproduced at "
-        "the knots, finite and exactly scale-equivariant; below those ranges the secant-product mask underflows "
-        "(finding PCHIP-U1), above them 12*secant/h^2 leaves the dtype",
+        "extreme magnitudes: data scaled by 2^k, k in [-940, 960] (float64) / [-80, 100] (float32), must be reproduced at "
+        "the knots, finite and exactly scale-equivariant; below those ranges rounding-noise-sized intermediates go "
+        "subnormal (and from 2^-1010 / 2^-115 on w/secant overflows), above them 12*secant/h^2 leaves the dtype",
         "C1 is proved as the algebraic joint conditions (value and formal first derivative agree at every knot), not as "
         "Mathlib's ContDiff",
-        "secant products below the binary64 underflow threshold (|delta_l*delta_r| < 1e-300) are not generated",
     ]
     import torch
     torch.set_num_threads(1)
